@@ -294,7 +294,7 @@ class MinFlowDecompCycles(walkmodel.AbstractWalkModelDiGraph):
             numbers = all_weights, 
             total = source_flow, 
             weight_type = self.weight_type,
-            max_multiplicity=self.w_max,
+            max_multiplicity=max(1, int(self.w_max)),  # an integer >= 1 also for float weights below 1
             lowerbound = current_lowerbound_k,
             remove_complement_values=True,
             remove_sums_of_two=True,
